@@ -15,6 +15,7 @@ import (
 	"os"
 	"path/filepath"
 	"runtime"
+	"runtime/debug"
 	"runtime/pprof"
 	"sort"
 	"strconv"
@@ -25,7 +26,7 @@ import (
 	"github.com/lindb/lindb/verif/internal/core"
 )
 
-const historiesQuick, historiesThorough = 40_000, 6_000_000
+const historiesQuick, historiesThorough = 60_000, 4_000_000
 
 func main() {
 	if len(os.Args) > 1 && os.Args[1] == "worker" {
@@ -71,6 +72,7 @@ func worker() {
 	out := os.Args[5]
 	c := core.New("C18", "exploration")
 	installLogCapture()
+	debug.SetGCPercent(400)
 	if pf := os.Getenv("VERIF_C18_PROFILE"); pf != "" {
 		f, _ := os.Create(pf)
 		_ = pprof.StartCPUProfile(f)
@@ -106,7 +108,7 @@ func part2(c *core.Ctx) {
 	}
 	dir := c.Scratch()
 	results := make([]*childResult, workers)
-	timeout := time.Duration(c.Pick(150, 3000)) * time.Second
+	timeout := time.Duration(c.Pick(150, 5000)) * time.Second
 	core.Parallel(workers, workers, func(i int) {
 		outJSON := filepath.Join(dir, fmt.Sprintf("worker-%d.json", i))
 		outLog := filepath.Join(dir, fmt.Sprintf("worker-%d.log", i))
